@@ -231,7 +231,8 @@ fn transport() -> SimResult {
         }
         c
     };
-    let (a, b) = pipe::pair_cfg(tame(PipeCfg::draw_min_cap(1024)), tame(PipeCfg::draw_min_cap(1024)));
+    let staged = choose(3) == 0; // transport with buffered-writer semantics: bytes move only on flush
+    let (a, b) = pipe::pair_cfg(tame(PipeCfg::draw_min_cap(1024)).with_staged(staged), tame(PipeCfg::draw_min_cap(1024)).with_staged(staged));
     let (sa, sb): (SideRef, SideRef) = Default::default();
     let ua = spawn_initiator(a, Config::new(&ka).unwrap(), sa.clone(), wa.clone());
     let ub = spawn_responder(b, Config::new(&kb).unwrap(), sb.clone(), wb.clone());
